@@ -1,0 +1,12 @@
+//go:build verif
+
+// Contracts for package signaling, checked by /verif (bfvc). Comment-only.
+package signaling
+
+//@ ifacegetters SignalPeer HandleSignalPeer
+
+//@ func (*signalPeer).IsEquivalent
+//@   ensures ret ==> samegetters(d, other, SignalPeer)
+
+//@ func (*handleSignalPeer).IsEquivalent
+//@   ensures ret ==> samegetters(d, other, HandleSignalPeer)
